@@ -99,6 +99,8 @@ def check(ctx):
                 I2, s2 = ctx.interp(), State()
                 ref = ctx.call_func(I2, s2, "ref.preprocessing_ref.sparse_centerer_transform", Kt, h["K_fit_rows_"], h["scale_"])
                 ctx.compare("NF-CENTER", f"SparseKernelCenterer.transform [{cfg}]", N, t, ref, site_t, cfg)
+                bad = [e for e in I.events if e["kind"] == "mutate" and any(o_[0] == "in" for o_ in e["target"].orig)]
+                ctx.ob("R-SELF", f"SparseKernelCenterer.fit / transform leave the caller's kernels untouched [{cfg}]", not bad, f"{[(e['short'], e['src']) for e in bad]}", site_t, cfg)
                 ctx.no_shape_conflicts("Shape", f"SparseKernelCenterer.transform on a (V, A) kernel [{cfg}]", I, lo, site_t, cfg)
     # ---- fit_transform = fit then transform ---------------------------------------------------------------
     for cq, mk in ((KN, lambda: (arr("K", "N", "N"),)), (SK, lambda: (arr("Knm", "N", "A"), arr("Kmm", "A", "A")))):
